@@ -119,6 +119,13 @@ func (r *vfC02SampledRun) run() {
 		case "short":
 			wire.SetCap(op.I("k"))
 			r.log = append(r.log, map[string]any{"op": "short", "k": op.I("k")})
+		case "glitch":
+			if op.S("kind") == "eofdata" {
+				wire.SetEOFWithData(true)
+			}
+			// the one-shot kinds are armed right in front of the Read the model lets them hit
+			r.log = append(r.log, map[string]any{"op": "glitch", "kind": op.S("kind")})
+			r.res.Case("glitch/" + op.S("kind"))
 		case "peek":
 			var peeked PeekedBytes
 			var c *wrappedSampledConn
@@ -183,7 +190,7 @@ func (r *vfC02SampledRun) run() {
 			default:
 				b = avail + r.pick.Pick([]int{1, 2, 3, 4096}, r.w.Walk, si)
 			}
-			if left > 0 && b > avail-left {
+			if left > 0 && b > avail-left && op.S("glitch") != "temperr" {
 				b = avail - left
 			}
 			if b < 0 {
@@ -192,11 +199,24 @@ func (r *vfC02SampledRun) run() {
 			if cap(buf) < b {
 				buf = make([]byte, b+4096)
 			}
+			glitch := op.S("glitch")
+			if glitch == "dataerr" || glitch == "temperr" {
+				wire.InjectRead(glitch)
+			}
 			var n int
 			var err error
 			vfc02.Guard("wrappedSampledConn.Read", func() { n, err = sc.Read(buf[:b:b]) })
-			r.log = append(r.log, map[string]any{"op": "read", "from": from, "rel": rel, "real": b, "avail": avail, "n": n, "err": fmt.Sprint(err)})
-			r.res.Case(fmt.Sprintf("read/%s/%s/%v", from, rel, op.B("eof")))
+			r.log = append(r.log, map[string]any{"op": "read", "from": from, "rel": rel, "real": b, "avail": avail, "glitch": glitch, "n": n, "err": fmt.Sprint(err)})
+			r.res.Case(fmt.Sprintf("read/%s/%s/%v/%s", from, rel, op.B("eof"), glitch))
+			if glitch == "dataerr" || glitch == "temperr" {
+				if wire.ReadGlitchPending() {
+					wire.InjectRead("")
+					r.mismatch(si, "L2:sampled-glitch", "the armed glitch was not reached by this Read", glitch, "none")
+				} else if !vfc02.IsGlitch(err) {
+					r.mismatch(si, "L2:sampled-glitch", fmt.Sprintf("the transient error of the connection was not passed on: %v", err), glitch, fmt.Sprint(err))
+				}
+				err = nil // a transient error is not a failure of the channel; the bytes that came with it count
+			}
 			if errors.Is(err, vfc02.ErrDry) {
 				if b > 0 {
 					r.mismatch(si, "L2:sampled-would-block", "Read found nothing in flight where the model delivers", op.I("n"), "dry")
